@@ -50,6 +50,8 @@ impl ProxyServerSharedState {
         tokio::spawn(async move {
             let mut users: HashMap<u64, User> = HashMap::new();
             while let Some(action) = rx.recv().await {
+                #[cfg(gpa_verif)]
+                crate::verif_hook::delay_point("actor_proxy_server").await;
                 match action {
                     ProxyServerAction::AddUser { user, response } => {
                         let id = user.logon_id;
